@@ -64,7 +64,7 @@ Definition mdns_key (m : dmsg) : string := "-".
 Definition nbns_key (r : res unit) (valid : bool) (m : dmsg) : string := "-".
 
 Definition dispatch_dns (kind : string) (args : list string) : string :=
-  if String.eqb kind "mdns" then
+  if String.eqb kind "mdns" || String.eqb kind "llmnr" then
     match args with
     | [_; st; rs; sq; an; ns; ar; recs] =>
         match msg_of_toks st rs sq an ns ar recs with
@@ -114,8 +114,7 @@ Definition dispatch_misc (kind : string) (args : list string) : option string :=
     | [h; sp; t] => match bytes_of_tok h, bytes_of_tok sp, nat_of_dec t with
                     | Some b, Some spare, Some pdu =>
                         let s := of_bytes_cap b spare in
-                        Some (verdict (lldp_get_pdu (slice_fuel s) s pdu 0)
-                                (if known_C08_lldp_short_tlv s pdu then "lldp-tlv-length-below-2" else "-"))
+                        Some (verdict (lldp_get_pdu (slice_fuel s) s pdu 0) "-")
                     | _, _, _ => Some BADARGS end
     | _ => Some BADARGS end
   else if String.eqb kind "p8023" then
@@ -141,38 +140,64 @@ Definition dispatch_misc (kind : string) (args : list string) : option string :=
     | _ => Some BADARGS end
   else if String.eqb kind "arp" then
     match args with
-    | [_; h] => match bytes_of_tok h with
-                | Some b => Some (verdict_ret (arp_process (of_bytes b)) "-")
-                | None => Some BADARGS end
+    | [_; h; c; hu; o; d] =>
+        match bytes_of_tok h, bool_of_tok c, bool_of_tok hu, bool_of_tok o, bool_of_tok d with
+        | Some b, Some c', Some hu', Some o', Some d' =>
+            Some (verdict_ret (arp_process (mkArpEnv c' hu' o' d') [192; 168; 0; 11]
+                                 (fun ip => (nth 0 ip 0 =? 192) && (nth 1 ip 0 =? 168) && (nth 2 ip 0 =? 0))
+                                 (of_bytes b)) "-")
+        | _, _, _, _, _ => Some BADARGS end
     | _ => Some BADARGS end
   else if String.eqb kind "icmp4" then
     match args with
-    | [_; h] => match bytes_of_tok h with
-                | Some b => let s := of_bytes b in
-                            Some (verdict_ret (icmp4_process s)
-                                    (if known_C08_icmp4_inner s then "icmp4-unreachable-inner-ip-totallen-below-ihl" else "-"))
-                | None => Some BADARGS end
+    | [_; h; i] => match bytes_of_tok h, bool_of_tok i with
+                | Some b, Some info => let s := of_bytes b in
+                            Some (verdict_ret (icmp4_process info s) "-")
+                | _, _ => Some BADARGS end
     | _ => Some BADARGS end
   else if String.eqb kind "icmp6" then
     match args with
-    | [_; h; hf] => match bytes_of_tok h, bool_of_tok hf with
-                    | Some b, Some host =>
-                        let s := of_bytes b in
-                        Some (verdict_ret (icmp6_process lbl_any (slice_fuel s) host s)
-                                (if (nth 0 b 0 =? 134) && host
-                                 then ndp_key (mkSlice (skipn 16 (arr s)) (len s - 16)) else "-"))
-                    | _, _ => Some BADARGS end
+    | [_; h; d; u; hf; hu] =>
+        match bytes_of_tok h, bool_of_tok d, bool_of_tok u, bool_of_tok hf, bool_of_tok hu with
+        | Some b, Some d', Some u', Some host, Some hu' =>
+            let s := of_bytes b in
+            Some (verdict_ret (icmp6_process lbl_any (slice_fuel s) (mkIcmp6Env d' u' host hu') s) "-")
+        | _, _, _, _, _ => Some BADARGS end
     | _ => Some BADARGS end
   else if String.eqb kind "dhcp4" then
     match args with
-    | [_; h] => match bytes_of_tok h with
-                | Some b => let s := of_bytes b in Some (verdict_ret (dhcp4_process (slice_fuel s) s) "-")
+    | [_; h; cp; rp; i; _] =>
+        match bytes_of_tok h, bool_of_tok cp, bool_of_tok i,
+              (if String.eqb rp "none" then Some RNone else if String.eqb rp "nak" then Some RNak
+               else option_map ROther (nat_of_dec rp)) with
+        | Some b, Some cp', Some i', Some rp' =>
+            let s := of_bytes b in
+            let e := mkDhcpEnv cp' rp' i' in
+            Some (verdict_ret (dhcp4_process (slice_fuel s) e s)
+                    (if known_C08_dhcp_reply_overrun e s then "dhcp4-reply-overruns-request-buffer" else "-"))
+        | _, _, _, _ => Some BADARGS end
+    | _ => Some BADARGS end
+  else if String.eqb kind "upnp" then
+    match args with
+    | [_; x] => match bool_of_tok x with
+                | Some xml_ok => Some (verdict (upnp_discovery true xml_ok) "-")
                 | None => Some BADARGS end
+    | _ => Some BADARGS end
+  else if String.eqb kind "upnploc" then Some (out3 "ret" "-" "-")
+  else if String.eqb kind "other" then
+    match args with
+    | [_; pid; h] =>
+        match N_of_dec pid, bytes_of_tok h with
+        | Some 25, Some b =>
+            let s := of_bytes b in
+            Some (verdict_ret (lldp_process (slice_fuel s) s 3) "-")
+        | Some _, Some _ => Some (out3 "ret" "-" "-")
+        | _, _ => Some BADARGS end
     | _ => Some BADARGS end
   else None.
 
 Definition dispatch (kind : string) (args : list string) : string :=
-  if String.eqb kind "mdns" || String.eqb kind "nbns" then dispatch_dns kind args else
+  if String.eqb kind "mdns" || String.eqb kind "nbns" || String.eqb kind "llmnr" then dispatch_dns kind args else
   match dispatch_misc kind args with Some r => r | None =>
   match args with
   | [h; sp] =>
@@ -185,8 +210,7 @@ Definition dispatch (kind : string) (args : list string) : string :=
             verdict (ra_options lbl_any (fuel_of s) s)
                     (ndp_key (mkSlice (skipn 16 (arr s)) (len s - 16)))
           else if String.eqb kind "rs" then
-            verdict (rs_options lbl_any (fuel_of s) s)
-                    (ndp_key (mkSlice (skipn 24 (arr s)) (len s - 24)))
+            verdict (rs_options lbl_any (fuel_of s) s) "-"
           else if String.eqb kind "hbh" then
             verdict (hbh_parse (fuel_of s) s)
                     "-"
